@@ -187,6 +187,20 @@ def r3(ctx):
                 consecutive = (u(outer.iter) in ("enumerate(cuts[:-1])", "range(len(cuts) - 1)") and (lo, hi) == ("cuts[%s]" % ivar, "cuts[%s + 1]" % ivar)) or (u(outer.iter) in ("zip(cuts[:-1], cuts[1:])", "zip(cuts, cuts[1:])", "pairwise(cuts)", "itertools.pairwise(cuts)") and isinstance(outer.target, ast.Tuple) and [u(t) for t in outer.target.elts] == [lo, hi])
                 ok = consecutive and u(st[0].value) == "accessible_pos[%s]" % lo
     ctx.ob(psi.qual, "component-is-first-variant-of-its-interval", ok, psi.loc(st[0].stmt) if st else psi.loc(), "components[accessible_pos[pos]] = accessible_pos[cuts[i]] for pos in range(cuts[i], cuts[i+1])" if ok else "the interval -> component assignment changed")
+    # no other store may replace the component of a variant: the only further keys are the shadow coordinates pos + 1, written
+    # in the same iteration with the same value
+    if len(st) == 1:
+        others = [s_ for s_ in util.store_sites(psi.node) if s_.kind == "subscript" and u(s_.target.value) == "components" and s_ is not st[0] and s_.stmt is not st[0].stmt]
+        for s_ in others:
+            same_iter = getattr(s_.stmt, "parent", None) is st[0].stmt.parent
+            key = u(s_.target.slice)
+            if same_iter and key in ("accessible_pos[pos] + 1", "1 + accessible_pos[pos]") and s_.value is not None and u(s_.value) in (u(st[0].value), "components[accessible_pos[pos]]"):
+                oko, why = True, "the shadow coordinate pos + 1 gets the component of pos in the same iteration"
+            elif s_.value is not None and "components[" in u(s_.value):
+                oko, why = False, "`%s` copies one entry of components over another after the intervals were assigned: when two variants are adjacent the later variant's own phase set is replaced by its neighbour's, across a cut" % s_.text()[:70]
+            else:
+                oko, why = None, "cannot tell whether `%s` keeps every variant in its own interval" % s_.text()[:70]
+            ctx.ob(psi.qual, "no-other-writer-of-components:%s" % key[:40], oko, psi.loc(s_.stmt), why)
     cc = [n for n in walk_function(psi.node) if isinstance(n, ast.Assign) and isinstance(n.value, ast.Call) and u(n.value.func) == "compute_cut_positions"]
     ok = len(cc) == 1 and u(cc[0].targets[0].elts[0]) == "cuts" and u(cc[0].value.args[0]) == "result.breakpoints"
     ctx.ob(psi.qual, "cuts-from-the-solvers-breakpoints", ok, psi.loc(), "cuts are computed from the solver's breakpoints" if ok else "cuts do not come from compute_cut_positions(result.breakpoints, ...)")
